@@ -47,7 +47,8 @@ UNDECIDED = [
     "least-squares optimality of the returned transform",
     "properness of the rotation for every input (numerical)",
     "noise-free recovery (follows from optimality, not from typing)",
-    "which inputs count as degenerate (rank threshold)",
+    "which singular values count as negligible (the eps threshold); the "
+    "count that leads to the refusal is decided (C03.2 rank-threshold)",
     "floating-point accuracy of the equivariances (they are decided as "
     "exact algebraic identities of the formulas, not of rounded results)",
 ]
@@ -110,6 +111,80 @@ def _documented_layout(a: T):
                 isinstance(tm.const_val(r), int):
             return (tm.const_val(r) == 3) == (op == "Eq")
     return None
+
+
+def _rank_threshold(ctx, f, ev, d: T, x: T):
+    """the raise condition of the degeneracy test as a function of the
+    number of non-negligible singular values"""
+    M = 3
+    m_terms = (tm.sub(tm.attr(x, "shape"), const(0)),)
+
+    def is_count(t: T) -> bool:
+        t = Interp.unname(t)
+        if is_call_to(t, "numpy.count_nonzero", "numpy.sum",
+                      "builtins.sum") and len(t.args[1]) == 1:
+            inner = Interp.unname(t.args[1][0])
+        elif is_call_to(t, ".sum") and not t.args[1]:
+            inner = Interp.unname(tm.method_recv(t))
+        else:
+            return False
+        return inner.op == "cmp" and inner.args[0] in ("Gt", "GtE") and \
+            inner.args[1] is d
+
+    def val(t: T, count: int):
+        t = Interp.unname(t)
+        if is_count(t):
+            return count
+        if any(t is m_ for m_ in m_terms):
+            return M
+        if is_call_to(t, "builtins.len") and len(t.args[1]) == 1 and \
+                t.args[1][0] is d:
+            return M
+        if tm.is_const(t) and type(tm.const_val(t)) is int:
+            return tm.const_val(t)
+        if t.op == "binop" and t.args[0] in ("Add", "Sub"):
+            a_, b_ = val(t.args[1], count), val(t.args[2], count)
+            if a_ is None or b_ is None:
+                return None
+            return a_ + b_ if t.args[0] == "Add" else a_ - b_
+        return None
+    atoms = [a for a in tm.atoms(ev.live) if a.op == "cmp" and
+             any(is_count(z) for z in (a.args[1], a.args[2]))]
+    if len(atoms) != 1:
+        return                      # another form of rank test: not decided
+    a = atoms[0]
+    refused = []
+    for count in range(0, M + 1):
+        l_, r_ = val(a.args[1], count), val(a.args[2], count)
+        if l_ is None or r_ is None:
+            return
+        truth = {"Lt": l_ < r_, "LtE": l_ <= r_, "Gt": l_ > r_,
+                 "GtE": l_ >= r_, "Eq": l_ == r_, "NotEq": l_ != r_}.get(
+                     a.args[0])
+        if truth is None:
+            return
+        v = tm.fold(ev.live, lambda t, truth=truth: truth if t is a else (
+            None if t.op in ("and", "or", "not") else (
+                False if t.op == "cmp" and t.args[0] == "NotEq" and
+                t.args[1].op == "attr" and t.args[1].args[1] == "shape"
+                else None)))
+        if v is None:
+            return
+        refused.append(v)
+    want = [True, True, False, False]      # counts 0, 1 | 2, 3  (m = 3)
+    ok = refused == want
+    ctx.ob("C03.2", f, ok,
+           "the rank test refuses exactly the point sets with fewer than "
+           "m - 1 non-negligible singular values (coincident / collinear), "
+           "planar sets are aligned" if ok else
+           f"the rank test `<singular values above the threshold> "
+           f"{a.args[0]} {fmt(a.args[2])[:40]}` refuses point sets with "
+           f"{[c for c, v in enumerate(refused) if v]} of 3 non-negligible "
+           f"singular values — expected: 0 and 1 only (a planar trajectory, "
+           f"rank 2, determines the rotation and must be aligned; a "
+           f"collinear one must be refused)",
+           key="C03.2:rank-threshold", refused_counts=[
+               c for c, v in enumerate(refused) if v])
 
 
 def check(ctx):
@@ -189,6 +264,14 @@ def check(ctx):
                      "no GeometryException is raised in dependence of the "
                      "singular values before the result is returned",
                      key="C03.2:degenerate-guard")
+            # ... and *which* inputs it refuses: "exactly degenerate sets
+            # (all points coincident, or all on one coordinate axis) are
+            # refused", point sets that determine a rotation (rank >= m - 1,
+            # e.g. every planar trajectory) are not. Decided when the test
+            # compares a count of the singular values above a threshold with
+            # an expression in m: evaluated for m = 3 and counts 0 .. 3
+            if deg:
+                _rank_threshold(ctx, f, deg[0], d, x)
         else:
             ok = tm.is_const(ret.args[2]) and ret.args[2].args[0] == "float" \
                 and ret.args[2].args[1] == 1.0
@@ -532,6 +615,18 @@ _LOOP = ("    sigma_x = 1.0 / n * (np.linalg.norm(x - mean_x[:, np.newaxis])**2)
          "        outer_sum += np.outer((y[:, i] - mean_y), (x[:, i] - mean_x))\n"
          "    cov_xy = np.multiply(1.0 / n, outer_sum)\n")
 VARIANTS = [
+    dict(name="rank-test-refuses-planar", file="evo/core/geometry.py",
+         find="    if np.count_nonzero(d > np.finfo(d.dtype).eps) < m - 1:",
+         replace="    if np.count_nonzero(d > np.finfo(d.dtype).eps) <= m - 1:",
+         expect="fire", rule="C03.2"),
+    dict(name="rank-test-accepts-collinear", file="evo/core/geometry.py",
+         find="    if np.count_nonzero(d > np.finfo(d.dtype).eps) < m - 1:",
+         replace="    if np.count_nonzero(d > np.finfo(d.dtype).eps) < m - 2:",
+         expect="fire", rule="C03.2"),
+    dict(name="rank-test-mask-sum", file="evo/core/geometry.py",
+         find="    if np.count_nonzero(d > np.finfo(d.dtype).eps) < m - 1:",
+         replace="    if (d > np.finfo(d.dtype).eps).sum() + 1 < m:",
+         expect="silent"),
     dict(name="eqv-vectorised-covariance", file="evo/core/geometry.py",
          find=_LOOP,
          replace="    x_c = x - mean_x[:, np.newaxis]\n"
